@@ -384,7 +384,7 @@ theorem parse_files (hk : HooksOK h) : ∀ (fs : List CFile) (off length : Nat),
     length = endFiles off (flatFiles fs) + free → length % 8 = 0 → length < 2 ^ 62 → 24 ≤ length →
     (endFiles off (flatFiles fs) + 24 < length → alignUp (endFiles off (flatFiles fs)) 8 + 32 ≤ length) →
     parseFiles h fuel data off ((length + 18446744073709551616 - 24) % 18446744073709551616) length st =
-      .ok (treeFiles fs, (if endFiles off (flatFiles fs) + 24 < length then
+      .ok (treeFiles fs, (if endFiles off (flatFiles fs) + 24 ≤ length then
         length - alignUp (endFiles off (flatFiles fs)) 8 else 0), st)
   | [], off, length, _, fuel, data, free, st, hf, _, hd, hlen, hl, h8, hlt, h24, htail => by
     simp only [flatFiles, endFiles] at hl htail hd ⊢
@@ -398,7 +398,7 @@ theorem parse_files (hk : HooksOK h) : ∀ (fs : List CFile) (off length : Nat),
     have hlh : (length + 18446744073709551616 - 24) % 18446744073709551616 = length - 24 := by omega
     have hsz := sizeFile_ge (flatFile f)
     simp only [flatFiles] at hd hl htail ⊢
-    rw [parseFiles, hlh, if_pos (show off < length - 24 by omega)]
+    rw [parseFiles, hlh, if_pos (show off ≤ length - 24 by omega)]
     simp only [align8_eq off (by omega)]
     rw [if_neg (show ¬ data.length ≤ alignUp off 8 by omega), hd, tailFiles_cons,
       parse_file hk f hwf fu _ st (by omega) hp]
